@@ -1,0 +1,64 @@
+//go:build verif
+
+// Contracts for the command dispatcher (property C05). Comment-only; read by /verif/cmd/cedarvc.
+package server
+
+//@ pkg github.com/bbockelm/cedar/server
+
+// the application's callbacks are deterministic functions of their arguments that do not touch cedar's state (assumed)
+//@ func funcfield:server.Server.SecurityConfigForCommand (command) (result)
+//@   trusted
+//@   pure
+//@   deterministic
+//@ func funcfield:server.Server.Authorizer (perm, peerAddr, user) (result)
+//@   trusted
+//@   pure
+//@   deterministic
+
+//@ pred reqOf(s, cmd) = ite(s.SecurityConfigForCommand != nil && SecurityConfigForCommand(s.SecurityConfigForCommand, cmd) != nil, SecurityConfigForCommand(s.SecurityConfigForCommand, cmd), s.SecurityConfig)
+//@ pred levelOK(s, cmd, authenticated, encrypted) = reqOf(s, cmd) == nil || ((reqOf(s, cmd).Authentication == "REQUIRED" ==> authenticated) && (reqOf(s, cmd).Encryption == "REQUIRED" || reqOf(s, cmd).Integrity == "REQUIRED" ==> encrypted))
+
+//@ func (*Server).commandLevelSatisfied (s, realCmd, authenticated, encrypted) (result)
+//@   props C05
+//@   assigns nothing
+//@   ensures by_current_policy: result == levelOK(s, realCmd, authenticated, encrypted)
+
+//@ func (*Server).CommandPerms (s, command) (result)
+//@   props C05 C17
+//@   assigns lock(&s.mu)
+//@   ensures lock_balanced: held(&s.mu) == old(held(&s.mu)) && rcount(&s.mu) == old(rcount(&s.mu))
+
+//@ func (*Server).authorized (s, realCmd, peerAddr, user) (result)
+//@   props C05
+//@   requires given: s.Authorizer != nil
+//@   assigns lock(&s.mu)
+//@   ensures some_level_accepts: [C05] result ==> exists p :: Authorizer(s.Authorizer, p, peerAddr, user)
+//@   ensures lock_balanced: held(&s.mu) == old(held(&s.mu)) && rcount(&s.mu) == old(rcount(&s.mu))
+
+//@ func (*Server).sessionSatisfies (s, realCmd, peerAddr, neg) (err)
+//@   props C05
+//@   assigns lock(&s.mu)
+//@   ensures level_met: [C05] err == nil ==> neg != nil && levelOK(s, realCmd, neg.Authentication, neg.Encryption)
+//@   ensures authorized_now: [C05] err == nil && s.Authorizer != nil ==> exists p :: Authorizer(s.Authorizer, p, peerAddr, neg.User)
+//@   ensures lock_balanced: held(&s.mu) == old(held(&s.mu)) && rcount(&s.mu) == old(rcount(&s.mu))
+
+// a handler is application code: anything may happen inside it (assumed only not to take the server's registry lock)
+//@ func funcfield:server.registeredHandler.fn
+//@   trusted
+
+//@ func (*Server).lookup (s, command) (h, ok)
+//@   props C05
+//@   assigns lock(&s.mu)
+//@   ensures lock_balanced: held(&s.mu) == old(held(&s.mu)) && rcount(&s.mu) == old(rcount(&s.mu))
+
+//@ func (*Server).run (s, ctx, h, c, conn) (err)
+//@   props C05
+//@   requires raw_handler_only: [C05] h.raw
+
+//@ func (*Server).ServeConn (s, ctx, conn) (err)
+//@   props C05
+//@   requires given: conn != nil
+//@   loop 1 invariant session: neg != nil
+//@   assert before call funcfield:server.registeredHandler.fn authenticated_handler_on_adequate_session: [C05] !h.raw && neg != nil && levelOK(s, realCmd, neg.Authentication, neg.Encryption) && (s.Authorizer != nil ==> exists p :: Authorizer(s.Authorizer, p, arg1.RemoteAddr, neg.User))
+//@   assert before call Server).run #1 raw_handler_on_raw_path: [C05] arg2.raw
+//@   assert before call Server).sessionSatisfies #1 checks_this_command_and_session: [C05] arg1 == realCmd && arg3 == neg
